@@ -166,6 +166,9 @@ class ChunkPolicy:
         self.max_small = int(self.spec.get("max_small", 400))
         self.reset_at = self.spec.get("reset_at")
         self.eof_at = self.spec.get("eof_at")
+        # the reader stops reading once it has got this many bytes (its receive window closes): what the writer
+        # writes beyond stays in the writer's buffer until Pipe.unstall()
+        self.stall_at = self.spec.get("stall_at")
         self.key = "tcp:%s:%s" % (conn.name, direction)
         self.k = 0  # deliveries so far
         self.kd = 0  # delays drawn so far
@@ -282,9 +285,31 @@ class Pipe:
         return (p.reset_at is not None and self.delivered >= p.reset_at and self.written >= p.reset_at) or (
             p.eof_at is not None and self.delivered >= p.eof_at and self.written >= p.eof_at)
 
+    def stalled(self):
+        p = self.policy
+        return p.stall_at is not None and self.delivered >= p.stall_at
+
+    def unstall(self):
+        """The reader reads again (or the connection is finally given up by the kernel)."""
+        if self.policy.stall_at is not None:
+            self.policy.stall_at = None
+            self.net.sim.log("tcp", "unstall", self.conn.name, self.direction, self.delivered)
+            if self.src is not None and self.src._lingering and not self.buf:
+                self._flushed()
+            self.kick(first=False)
+
+    def _flushed(self):
+        """Nothing is left in the writer's buffer: a close() that had to wait for that completes now."""
+        src = self.src
+        if src is not None and src._lingering and not src._lost_scheduled and not src._closed:
+            src._lingering = False
+            src._lost_scheduled = True
+            self.net.loop.call_soon(src._call_connection_lost, None)
+
     def discard(self):
         self.discarded += len(self.buf)
         del self.buf[:]
+        self._flushed()
 
     # -- simulator event
     def _deliver(self):
@@ -299,6 +324,12 @@ class Pipe:
         if dst._paused:
             return  # resume_reading kicks
         p = self.policy
+        if self.stalled():
+            if self.buf and not getattr(self, "_stall_counted", False):
+                self._stall_counted = True
+                sim.log("tcp", "fault-stall", self.conn.name, self.direction, self.delivered)
+                self.net.count("stall")
+            return
         if p.reset_at is not None and self.delivered >= p.reset_at:
             sim.log("tcp", "fault-reset", self.conn.name, self.direction, self.delivered)
             self.net.count("reset")
@@ -319,7 +350,7 @@ class Pipe:
                 dst._eof_from_peer()
             return
         n = p.next_size(len(self.buf), self.delivered)
-        for lim in (p.reset_at, p.eof_at):
+        for lim in (p.reset_at, p.eof_at, p.stall_at):
             if lim is not None and self.delivered < lim < self.delivered + n:
                 n = lim - self.delivered
         chunk = bytes(self.buf[:n])
@@ -332,6 +363,8 @@ class Pipe:
         sim.log("tcp", "chunk", self.conn.name, self.direction, off, n,
                 chunk.hex() if n <= 48 else hashlib.sha256(chunk).hexdigest()[:16])
         dst._data_from_peer(chunk)
+        if not self.buf:
+            self._flushed()
         self.kick(first=False)
 
 
@@ -357,6 +390,7 @@ class SimStreamTransport(asyncio.Transport):
         self._paused = False
         self._lost_called = False
         self._lost_scheduled = False
+        self._lingering = False  # close() was called with unsent bytes the peer does not take: connection_lost waits
         self.out = None  # Pipe we write into
         self.inp = None  # Pipe we read from
         self.server = None
@@ -391,6 +425,13 @@ class SimStreamTransport(asyncio.Transport):
         if self.out is not None and not self._write_eof:
             self.out.fin = True
             self.out.kick(first=True)
+        if self.out is not None and self.out.buf and self.out.stalled() and not self.out.dead:
+            # asyncio: with a non-empty write buffer close() only stops reading; connection_lost(None) is called
+            # once the buffer has been flushed -- which a peer that does not read can put off indefinitely
+            self._lingering = True
+            self.net.sim.log("tcp", "close-lingers", self.conn.name, self.side, len(self.out.buf))
+            self.net.count("close_linger")
+            return
         self._lost_scheduled = True
         self.loop.call_soon(self._call_connection_lost, None)
 
